@@ -302,7 +302,12 @@ func runStream(x *core.Ctx, r *core.Rng, n int) {
 		if profile == "empty-rp" && r.Chance(0.5) {
 			rp = ""
 		}
-		p := edge.NewPointMessage(name, dbs[r.Intn(len(dbs))], rp, models.Dimensions{}, f, genTags(r, groups, profile), t)
+		pt := t
+		if i > 0 && r.Chance(0.08) {
+			// a late arrival: older than anything recorded so far (also than the first point)
+			pt = pts[0].Time().Add(-time.Duration(r.Range(1, 90)) * time.Second)
+		}
+		p := edge.NewPointMessage(name, dbs[r.Intn(len(dbs))], rp, models.Dimensions{}, f, genTags(r, groups, profile), pt)
 		pts = append(pts, p)
 		if !r.Chance(0.2) {
 			t = t.Add(time.Duration(r.Intn(5000)) * time.Millisecond).Add(time.Duration(r.Intn(3)))
